@@ -322,16 +322,16 @@ def check_C15(run):
     suites = [
         dict(name='counts-2k', consts=dict(Keys='{1, 2}', MaxTs='2'), genlen=4,
              acts=['write', 'delete', 'close_active', 'restore_active', 'create_active', 'force_update', 'restart'],
-             restarts_set=store.restarts(dmgs=('keep', 'lose')), nkeys=2, sample=(1, 30) if q else (1, 2)),
+             restarts_set=store.restarts(dmgs=('keep', 'lose')), nkeys=2, sample=(1, 30) if q else (1, 8)),
         dict(name='counts-quarantine', consts=dict(Keys='{1}', MaxTs='1'), genlen=5 if q else 6,
              acts=['write', 'close_active', 'create_active', 'restart', 'restart_corrupt'],
-             restarts_set=store.restarts(gs=(True,), dmgs=('keep',)), nkeys=1, sample=(1, 6) if q else (1, 1)),
+             restarts_set=store.restarts(gs=(True,), dmgs=('keep',)), nkeys=1, sample=(1, 6) if q else (1, 3)),
         dict(name='counts-ignore', consts=dict(Keys='{1}', MaxTs='1', IgnoreCorrupted='TRUE'), genlen=5 if q else 6,
              acts=['write', 'close_active', 'create_active', 'restart', 'restart_corrupt'], hcfg_overrides=dict(ignore_corrupted=True),
-             restarts_set=store.restarts(gs=(True,), dmgs=('keep',)), nkeys=1, sample=(1, 6) if q else (1, 1)),
+             restarts_set=store.restarts(gs=(True,), dmgs=('keep',)), nkeys=1, sample=(1, 6) if q else (1, 3)),
         dict(name='counts-holes', consts=dict(Keys='{1}', MaxTs='1'), genlen=6 if q else 7,
              acts=['write', 'delete', 'close_active', 'restore_active', 'create_active', 'restart'],
-             restarts_set=store.restarts(gs=(True,), dmgs=('keep',)), nkeys=1, sample=(1, 20) if q else (1, 2)),
+             restarts_set=store.restarts(gs=(True,), dmgs=('keep',)), nkeys=1, sample=(1, 20) if q else (1, 6)),
         dict(name='sim', consts=dict(Keys='{1, 2}', MaxTs='2', Metas='{0, 1}'), genlen=30,
              acts=['write', 'delete', 'restart'] + LIFE_ALL[:8], preds=('always', 'ifactive'), nkeys=2,
              restarts_set=store.restarts(dmgs=('keep', 'lose')), simulate=300 if q else 6000, workers=1 if q else 8),
@@ -631,16 +631,16 @@ def check_C11(run):
     run.build()
     suites = [
         dict(name='fault-big', consts=dict(Keys='{1}', MaxTs='2', Sizes='{"s", "e4k+"}'), genlen=3,
-             acts=['write', 'close_active'], nkeys=1, sample=(1, 8) if q else (1, 1)),
+             acts=['write', 'close_active'], nkeys=1, sample=(1, 8) if q else (1, 3)),
         dict(name='fault-1k', consts=dict(Keys='{1}', MaxTs='2'), genlen=4,
              acts=['write', 'delete', 'close_active', 'restore_active', 'create_active', 'force_update'], nkeys=1,
-             sample=(1, 150) if q else (1, 4)),
+             sample=(1, 150) if q else (1, 20)),
         dict(name='fault-2k', consts=dict(Keys='{1, 2}', MaxTs='2'), genlen=5,
-             acts=['write', 'delete', 'close_active', 'create_active'], nkeys=2, sample=(1, 5000) if q else (1, 40)),
+             acts=['write', 'delete', 'close_active', 'create_active'], nkeys=2, sample=(1, 5000) if q else (1, 400)),
         # faults in a second session: the last blob of the first session is the active blob again (reopened file)
         dict(name='fault-reopen', consts=dict(Keys='{1}', MaxTs='2'), genlen=4,
              acts=['write', 'delete', 'restart', 'close_active'], restarts_set=store.restarts(gs=(True,), lazies=(False,), dmgs=('keep',)), nkeys=1,
-             sample=(1, 8) if q else (1, 1)),
+             sample=(1, 8) if q else (1, 3)),
     ]
     total_exec = 0
     by_plan = {}
